@@ -827,7 +827,7 @@ Lemma unfixed_generic {A B} (sg : A -> Z) (pt : A -> B) (xs : A -> A -> B) v0 v1
 Proof.
   intros H0 H1 H2. split.
   - unfold slice_closed_unfixed, closed_roll. cbn [map olast]. rewrite H0, H1, H2. cbn.
-    rewrite H0, H1, H2. cbn. rewrite H0. cbn. reflexivity.
+    do 4 (rewrite ?H0, ?H1, ?H2; cbn). reflexivity.
   - unfold closed_spec_result, enter, leave. cbn [olast hd_error map app]. rewrite H0. reflexivity.
 Qed.
 
@@ -847,9 +847,10 @@ Proof.
     split; [discriminate|]. split; [discriminate|]. split.
     + repeat constructor; unfold front; rewrite xplane_sign; exact Sp.
     + repeat constructor. unfold front. rewrite xplane_sign, Sn. discriminate.
-  - eexists. split; [|reflexivity].
-    unfold sliced_by_plane_unfixed, slice_any_unfixed. cbn [pclosed pv length Nat.ltb Nat.leb andb].
-    apply unfixed_generic; rewrite xplane_sign; assumption.
+  - eexists. split.
+    + unfold sliced_by_plane_unfixed, slice_any_unfixed. cbn [pclosed pv length Nat.ltb Nat.leb andb].
+      apply unfixed_generic; rewrite xplane_sign; assumption.
+    + reflexivity.
   - unfold closed_spec_points.
     rewrite (proj2 (unfixed_generic (plane_sign ROps xplane) (fun v => v) (crossing xplane) _ _ _
               (eq_trans (xplane_sign _ _) Sn) (eq_trans (xplane_sign _ _) Sp) (eq_trans (xplane_sign _ _) Sp))).
